@@ -949,12 +949,13 @@ class EventBus:
 
         # Always acquire the global lock (it's re-entrant across tasks)
         async with _get_global_lock():
-            # Process the event
-            await self.process_event(event, timeout=timeout)
-
-            # Mark task as done only if we got it from the queue
-            if from_queue:
-                self.event_queue.task_done()
+            try:
+                # Process the event
+                await self.process_event(event, timeout=timeout)
+            finally:
+                # Mark task as done only if we got it from the queue (even if processing failed, or join() never returns)
+                if from_queue:
+                    self.event_queue.task_done()
 
         logger.debug(f'✅ {self}.step({event}) COMPLETE')
         return event
@@ -1025,7 +1026,14 @@ class EventBus:
         # Use handler id as key to preserve all handlers even with duplicate names
         filtered_handlers: dict[PythonIdStr, EventHandler] = {}
         for handler in applicable_handlers:
-            if self._would_create_loop(event, handler):
+            try:
+                would_create_loop = self._would_create_loop(event, handler)
+            except RuntimeError as loop_error:
+                # recursion guard tripped: record it as this handler's error instead of aborting the whole event
+                event.event_result_update(handler=handler, eventbus=self, error=loop_error)
+                logger.error(f'❌ {self} {loop_error}')
+                continue
+            if would_create_loop:
                 continue
             else:
                 handler_id = get_handler_id(handler, self)
